@@ -192,7 +192,12 @@ def make_config(rng, fn=None, big=False, coefs=None, maxvars=6, one_shot_ok=Fals
             ty = rng.choice([np.int8, np.int64] if spin else [np.uint8, np.int64, np.uint64])
             kw["initial_state"] = {k_: ty(v_) for k_, v_ in kw["initial_state"].items()}
         numpy_spelled = True
-    return {"fn": fn, "type": tn, "model": m, "terms": dict(m), "kw": kw, "poly": p, "kind": kind,
+    seq_state = False
+    if mat and kw.get("initial_state") and rng.random() < 0.3:
+        # labels 0..n-1: the state spelled as a sequence indexed by label (the repository's own tests spell it so)
+        kw["initial_state"] = rng.choice([list, tuple])(kw["initial_state"][i] for i in range(len(full)))
+        seq_state = True
+    return {"seq_state": seq_state, "fn": fn, "type": tn, "model": m, "terms": dict(m), "kw": kw, "poly": p, "kind": kind,
             "true_vars": tv, "full_keys": full, "own_matrix": own, "matrix": mat, "schedule_kind": sch, "user_mapping": mapped, "coef_kind": coef_kind, "numpy_spelled": numpy_spelled,
             "constrained": constrained}
 
